@@ -386,7 +386,7 @@ def into_data(val: Convertible, ty: t.Optional[IntoConverter] = None, *,
     """
     Convert `val` of type `ty` into a data interchange format.
     """
-    if ty is None:
+    if ty is None or ty is t.Any:
         if isinstance(val, _ScalarType) and custom is None:
             # we can bypass the converter for scalar types
             return val
